@@ -96,7 +96,7 @@ structure Inv (s : Store) : Prop where
   sync : Sync s
   dirs : ∀ k ∈ s.rowsets, (lookup k s.dirs).isSome
   dvFiles : ∀ e ∈ s.dvs, ∃ raw, lookup e.key s.dvFiles = some raw ∧ sortDedup raw = e.dead
-  dvFilesLive : ∀ x ∈ s.dvFiles, (lookup x.1.1 s.tables).isSome → x.1 ∈ s.dvs.map DvE.key
+  dvLive : ∀ e ∈ s.dvs, (e.tid, e.rs) ∈ s.rowsets          -- no DV outlives its row-set
   dvIds : ∀ e ∈ s.dvs, e.dv < s.nextDv
   catIds : ∀ e ∈ s.cat.entries, e.id < s.cat.nextId ∧ e.kind = .table
   idsNodup : (s.cat.entries.map (·.id)).Nodup
@@ -105,7 +105,6 @@ structure Inv (s : Store) : Prop where
   tabIds : ∀ x ∈ s.tables, x.1 < s.cat.nextId
   rsTables : ∀ k ∈ s.rowsets, (lookup k.1 s.tables).isSome
   dvTables : ∀ e ∈ s.dvs, (lookup e.tid s.tables).isSome
-  dvFileTid : ∀ x ∈ s.dvFiles, x.1.1 < s.cat.nextId
 
 theorem Inv.reopenHyp {s : Store} (h : Inv s) : ReopenHyp s :=
   ⟨h.sync.ok, by rw [h.sync.cat], h.sync.tables, h.sync.rs, h.sync.dv, h.dirs, h.rsTables, h.dvTables, h.dvFiles⟩
@@ -119,7 +118,7 @@ theorem Inv.dvKeysNodup {s : Store} (h : Inv s) : (s.dvs.map DvE.key).Nodup := b
   rwa [h.sync.dv] at this
 
 theorem inv_init : Inv Store.init := by
-  refine ⟨wf_init, sync_init, ?_, ?_, ?_, ?_, ?_, ?_, ?_, ?_, ?_, ?_, ?_, ?_⟩ <;> simp [Store.init]
+  refine ⟨wf_init, sync_init, ?_, ?_, ?_, ?_, ?_, ?_, ?_, ?_, ?_, ?_, ?_⟩ <;> simp [Store.init]
 
 theorem lookup_isSome_of_mem {α β} [BEq α] [LawfulBEq α] (k : α) (v : β) : ∀ l : List (α × β), (k, v) ∈ l → (lookup k l).isSome
   | [], h => by simp at h
@@ -191,7 +190,7 @@ theorem insert_inv (s : Store) (inv : Inv s) (n : String) (parts : List (List Ro
     omega
   refine ⟨hwf, ⟨by rw [f8]; exact c1, by rw [hA.1.2.2.2]; exact inv.sync.ok, by rw [hA.1.1, f1]; exact inv.sync.cat,
       by rw [hA.1.2.1, f2]; exact inv.sync.tables, ?_, by rw [hA.2.1, f3]; exact inv.sync.dv⟩,
-    ?_, ?_, ?_, ?_, ?_, ?_, ?_, ?_, ?_, ?_, ?_, ?_⟩
+    ?_, ?_, ?_, ?_, ?_, ?_, ?_, ?_, ?_, ?_, ?_⟩
   · rw [hA.2.2.2, inv.sync.rs, f7]
     exact foldl_setInsert_nodup _ _ hnd
   · intro k hk
@@ -204,7 +203,7 @@ theorem insert_inv (s : Store) (inv : Inv s) (n : String) (parts : List (List Ro
       | some v => rfl
       | none => exact lookup_isSome_of_mem x.1 x.2 _ (by cases x; exact hx)
   · intro e he; rw [f3] at he; rw [f4]; exact inv.dvFiles e he
-  · intro x hx hl; rw [f4] at hx; rw [f2] at hl; rw [f3]; exact inv.dvFilesLive x hx hl
+  · intro e he; rw [f3] at he; rw [f7]; exact List.mem_append_left _ (inv.dvLive e he)
   · intro e he; rw [f3] at he; rw [f5]; exact inv.dvIds e he
   · rw [f1]; exact inv.catIds
   · rw [f1]; exact inv.idsNodup
@@ -218,7 +217,6 @@ theorem insert_inv (s : Store) (inv : Inv s) (n : String) (parts : List (List Ro
     · obtain ⟨x, hx, rfl⟩ := List.mem_map.mp hk
       rw [(hkeys x hx).1, h2]; rfl
   · intro e he; rw [f3] at he; rw [f2]; exact inv.dvTables e he
-  · rw [f1, f4]; exact inv.dvFileTid
 
 /-! ### DELETE keeps the invariant -/
 
@@ -288,15 +286,18 @@ theorem delete_fields2 (s : Store) (n : String) (p : Row → Bool) (tid : Nat) (
   simp only [Store.delete, h1, Store.commit]
   exact ⟨rfl, rfl, rfl⟩
 
+/-- `hfree`: the DV files about to be written do not exist yet (`create_new`): DV files are never
+unlinked, so a re-issued (table, row-set, DV) id triple would collide -/
 theorem delete_inv (s : Store) (inv : Inv s) (n : String) (p : Row → Bool) (tid : Nat)
-    (h1 : s.tableId? n = some tid) : Inv (s.delete n p).1 := by
+    (h1 : s.tableId? n = some tid)
+    (hfree : ∀ e ∈ mkDvs tid (delHits s tid p) s.nextDv, lookup e.key s.dvFiles = none) : Inv (s.delete n p).1 := by
   obtain ⟨f1, f2, f3, f4, f5, f6, f7, _⟩ := delete_fields s n p tid h1
   obtain ⟨g1, g2, g3⟩ := delete_fields2 s n p tid h1
   have hwf := (delete_scan s inv.wf n p tid h1).1
   obtain ⟨e0, he0, hid, _, _⟩ := tableId?_mem s n tid h1
   have htab : (lookup tid s.tables).isSome := by rw [← hid]; exact inv.catTab e0 he0
   have htid : tid < s.cat.nextId := by rw [← hid]; exact (inv.catIds e0 he0).1
-  generalize hnd : mkDvs tid (delHits s tid p) s.nextDv = nd at f7 g1 g2 g3
+  generalize hnd : mkDvs tid (delHits s tid p) s.nextDv = nd at f7 g1 g2 g3 hfree
   have hmem := mkDvs_mem tid (delHits s tid p) s.nextDv
   obtain ⟨hsp1, hsp2⟩ := mkDvs_spec tid (delHits s tid p) s.nextDv
   rw [hnd] at hmem hsp1 hsp2
@@ -326,7 +327,7 @@ theorem delete_inv (s : Store) (inv : Inv s) (n : String) (p : Row → Bool) (ti
     rw [List.map_map]; exact hsp2
   refine ⟨hwf, ⟨by rw [g3]; exact c1, by rw [hA.1.2.2.2]; exact inv.sync.ok, by rw [hA.1.1, f1]; exact inv.sync.cat,
       by rw [hA.1.2.1, f2]; exact inv.sync.tables, by rw [hA.2.1, f3]; exact inv.sync.rs, ?_⟩,
-    ?_, ?_, ?_, ?_, ?_, ?_, ?_, ?_, ?_, ?_, ?_, ?_⟩
+    ?_, ?_, ?_, ?_, ?_, ?_, ?_, ?_, ?_, ?_, ?_⟩
   · rw [hA.2.2.2, inv.sync.dv, f7, List.map_append]
     exact foldl_setInsert_nodup _ _ hnodup
   · intro k hk; rw [f3] at hk; rw [f4]; exact inv.dirs k hk
@@ -337,21 +338,16 @@ theorem delete_inv (s : Store) (inv : Inv s) (n : String) (p : Row → Bool) (ti
       exact ⟨raw, by rw [lookup_append_isSome _ _ _ (by simp [r1])]; exact r1, r2⟩
     · refine ⟨e.dead, ?_, (hsp1 e he).2.2⟩
       rw [lookup_append]
-      have hnone : lookup e.key s.dvFiles = none := by
-        apply lookup_none_of_forall
-        intro x hx heq
-        have hl : (lookup x.1.1 s.tables).isSome := by rw [heq]; simp [DvE.key, (hmem e he).1]; exact htab
-        have := inv.dvFilesLive x hx hl
-        rw [heq] at this
-        exact hdisj _ this _ (List.mem_map_of_mem he) rfl
-      rw [hnone]
+      rw [hfree e he]
       exact lookup_of_mem_nodup _ _ _ hfilesNodup (List.mem_map.mpr ⟨e, he, rfl⟩)
-  · intro x hx hl
-    rw [g2] at hx; rw [f2] at hl; rw [f7, List.map_append]
-    rcases List.mem_append.mp hx with hx | hx
-    · exact List.mem_append_left _ (inv.dvFilesLive x hx hl)
-    · obtain ⟨e, he, rfl⟩ := List.mem_map.mp hx
-      exact List.mem_append_right _ (List.mem_map_of_mem he)
+  · intro e he
+    rw [f7] at he; rw [f3]
+    rcases List.mem_append.mp he with he | he
+    · exact inv.dvLive e he
+    · obtain ⟨_, h, hh, h2⟩ := hmem e he
+      obtain ⟨rs, hrs, rfl⟩ := List.mem_map.mp hh
+      rw [(hmem e he).1, h2]
+      exact mem_rowsetsOf.mp hrs
   · intro e he
     rw [f7] at he; rw [g1]
     rcases List.mem_append.mp he with he | he
@@ -368,20 +364,14 @@ theorem delete_inv (s : Store) (inv : Inv s) (n : String) (p : Row → Bool) (ti
     rcases List.mem_append.mp he with he | he
     · exact inv.dvTables e he
     · rw [(hmem e he).1]; exact htab
-  · intro x hx
-    rw [g2] at hx; rw [f1]
-    rcases List.mem_append.mp hx with hx | hx
-    · exact inv.dvFileTid x hx
-    · obtain ⟨e, he, rfl⟩ := List.mem_map.mp hx
-      simp [DvE.key, (hmem e he).1]; exact htid
 
 /-! ### vacuum and compaction keep the invariant -/
 
 theorem vacuum_inv (s : Store) (inv : Inv s) : Inv s.vacuum := by
   have hwf := (vacuum_scan s inv.wf).1
   refine ⟨hwf, ⟨inv.sync.closed, inv.sync.ok, inv.sync.cat, inv.sync.tables, inv.sync.rs, inv.sync.dv⟩,
-    ?_, inv.dvFiles, inv.dvFilesLive, inv.dvIds, inv.catIds, inv.idsNodup, inv.namesNodup, inv.catTab, inv.tabIds,
-    inv.rsTables, inv.dvTables, inv.dvFileTid⟩
+    ?_, inv.dvFiles, inv.dvLive, inv.dvIds, inv.catIds, inv.idsNodup, inv.namesNodup, inv.catTab, inv.tabIds,
+    inv.rsTables, inv.dvTables⟩
   intro k hk
   have hnp : s.pending.contains k = false := by
     cases hc : s.pending.contains k with
@@ -396,21 +386,39 @@ theorem Sync.mk' {s' : Store} {b : Boot} (hb : bootFold (replay s'.manifest) = b
     (dv : b.dvOpen = s'.dvs.map DvE.key) : Sync s' := by
   subst hb; exact ⟨hc, ok, cat, tables, rs, dv⟩
 
-theorem contains_dels_rs (tid : Nat) (selected : List Nat) (k : Nat × Nat) :
-    (selected.map fun rs => Rec.delRowSet tid rs).contains (Rec.delRowSet k.1 k.2) = (k.1 == tid && selected.contains k.2) := by
-  rw [Bool.eq_iff_iff]
-  simp only [List.contains_iff_mem, List.mem_map, Bool.and_eq_true, beq_iff_eq]
-  constructor
-  · rintro ⟨rs, hrs, h⟩
-    simp at h
-    exact ⟨h.1.symm, h.2 ▸ hrs⟩
-  · rintro ⟨h1, h2⟩
-    exact ⟨k.2, h2, by simp [h1]⟩
+def compactDels (s : Store) (tid : Nat) (selected : List Nat) : List Rec :=
+  (selected.map fun rs => Rec.delRowSet tid rs) ++ compactDvDels s tid selected
 
-theorem contains_dels_dv (tid : Nat) (selected : List Nat) (k : Nat × Nat × Nat) :
-    (selected.map fun rs => Rec.delRowSet tid rs).contains (Rec.delDV k.1 k.2.1 k.2.2) = false := by
-  rw [Bool.eq_false_iff]
-  simp
+theorem compactDels_isDel (s : Store) (tid : Nat) (selected : List Nat) : ∀ r ∈ compactDels s tid selected, r.isDel = true := by
+  intro r hr
+  simp only [compactDels, compactDvDels, List.mem_append, List.mem_map, List.mem_flatMap] at hr
+  rcases hr with ⟨x, _, rfl⟩ | ⟨rs, _, dv, _, rfl⟩ <;> rfl
+
+theorem contains_dels_rs (s : Store) (tid : Nat) (selected : List Nat) (k : Nat × Nat) :
+    (compactDels s tid selected).contains (Rec.delRowSet k.1 k.2) = (k.1 == tid && selected.contains k.2) := by
+  rw [Bool.eq_iff_iff]
+  simp only [compactDels, compactDvDels, List.contains_iff_mem, List.mem_append, List.mem_map, List.mem_flatMap,
+    Bool.and_eq_true, beq_iff_eq]
+  constructor
+  · rintro (⟨rs, hrs, h⟩ | ⟨rs, _, dv, _, h⟩)
+    · simp at h; exact ⟨h.1.symm, h.2 ▸ hrs⟩
+    · simp at h
+  · rintro ⟨h1, h2⟩
+    exact Or.inl ⟨k.2, h2, by simp [h1]⟩
+
+theorem contains_dels_dv (s : Store) (tid : Nat) (selected : List Nat) (x : DvE) (hx : x ∈ s.dvs) :
+    (compactDels s tid selected).contains (Rec.delDV x.tid x.rs x.dv) = (x.tid == tid && selected.contains x.rs) := by
+  rw [Bool.eq_iff_iff]
+  simp only [compactDels, compactDvDels, List.contains_iff_mem, List.mem_append, List.mem_map, List.mem_flatMap,
+    Bool.and_eq_true, beq_iff_eq]
+  constructor
+  · rintro (⟨rs, _, h⟩ | ⟨rs, hrs, dv, _, h⟩)
+    · simp at h
+    · simp at h; exact ⟨h.1.symm, h.2.1 ▸ hrs⟩
+  · rintro ⟨h1, h2⟩
+    refine Or.inr ⟨x.rs, h2, x.dv, ?_, by simp [h1]⟩
+    rw [mem_sortNat]
+    exact List.mem_map.mpr ⟨x, List.mem_filter.mpr ⟨hx, by simp [h1]⟩, rfl⟩
 
 theorem compactTable_inv (s : Store) (inv : Inv s) (tid : Nat) (d : TableDef) (sel : List Nat)
     (hd : lookup tid s.tables = some d) : Inv (s.compactTable tid d sel) := by
@@ -426,36 +434,53 @@ theorem compactTable_inv (s : Store) (inv : Inv s) (tid : Nat) (d : TableDef) (s
     intro x hx
     rw [← hsel, mem_sortNat] at hx
     exact mem_rowsetsOf.mp (List.mem_filter.mp hx).1
-  have hdelsDel : ∀ r ∈ (selected.map fun rs => Rec.delRowSet tid rs), r.isDel = true := by
-    intro r hr; obtain ⟨x, _, rfl⟩ := List.mem_map.mp hr; rfl
-  have hdelsNm : ∀ r ∈ (selected.map fun rs => Rec.delRowSet tid rs), r.isMark = false := by
-    intro r hr; obtain ⟨x, _, rfl⟩ := List.mem_map.mp hr; rfl
+  have hdelsDel := compactDels_isDel s tid selected
+  have hdelsNm : ∀ r ∈ compactDels s tid selected, r.isMark = false := by
+    intro r hr; have := hdelsDel r hr; cases r <;> simp_all [Rec.isDel, Rec.isMark]
   have hkeepSub : ∀ k ∈ (s.rowsets.filter fun x => !(x.1 == tid && selected.contains x.2)), k ∈ s.rowsets :=
     fun k hk => (List.mem_filter.mp hk).1
+  have hdvSub : ∀ e ∈ (s.dvs.filter fun e => !(e.tid == tid && selected.contains e.rs)), e ∈ s.dvs :=
+    fun e he => (List.mem_filter.mp he).1
+  -- a kept DV sits on a kept row-set
+  have hdvLive : ∀ e ∈ (s.dvs.filter fun e => !(e.tid == tid && selected.contains e.rs)),
+      (e.tid, e.rs) ∈ (s.rowsets.filter fun x => !(x.1 == tid && selected.contains x.2)) := by
+    intro e he
+    have := List.mem_filter.mp he
+    exact List.mem_filter.mpr ⟨inv.dvLive e this.1, this.2⟩
+  have hdvSync : ∀ (l : List (Nat × Nat × Nat)), l = s.dvs.map DvE.key →
+      l.filter (fun k => !((compactDels s tid selected).contains (Rec.delDV k.1 k.2.1 k.2.2)))
+        = (s.dvs.filter fun e => !(e.tid == tid && selected.contains e.rs)).map DvE.key := by
+    intro l hl
+    subst hl
+    rw [List.filter_map]
+    congr 1
+    apply List.filter_congr
+    intro x hx
+    simp only [Function.comp, DvE.key]
+    rw [contains_dels_dv s tid selected x hx]
   by_cases hlen : selected.length ≤ 1
   · simp only [hlen, if_true]; exact inv
   · simp only [hlen, if_false] at hwf ⊢
     by_cases hemp : rows.isEmpty = true
     · simp only [hemp, if_true] at hwf ⊢
-      obtain ⟨c1, c2⟩ := sync_commit s.manifest _ inv.sync.closed hdelsNm
+      obtain ⟨c1, c2⟩ := sync_commit s.manifest (compactDels s tid selected) inv.sync.closed hdelsNm
       have hD := foldl_dels _ (bootFold (replay s.manifest)) hdelsDel inv.sync.ok
       simp only [Boot.tabPart, Prod.mk.injEq] at hD
       refine ⟨hwf, Sync.mk' c2 c1 (by rw [hD.1.2.2.2]; exact inv.sync.ok) (by rw [hD.1.1]; exact inv.sync.cat)
           (by rw [hD.1.2.1]; exact inv.sync.tables) ?_ ?_,
-        fun k hk => inv.dirs k (hkeepSub k hk), inv.dvFiles, inv.dvFilesLive, inv.dvIds, inv.catIds, inv.idsNodup,
-        inv.namesNodup, inv.catTab, inv.tabIds, fun k hk => inv.rsTables k (hkeepSub k hk), inv.dvTables, inv.dvFileTid⟩
+        fun k hk => inv.dirs k (hkeepSub k hk), fun e he => inv.dvFiles e (hdvSub e he), hdvLive,
+        fun e he => inv.dvIds e (hdvSub e he), inv.catIds, inv.idsNodup,
+        inv.namesNodup, inv.catTab, inv.tabIds, fun k hk => inv.rsTables k (hkeepSub k hk),
+        fun e he => inv.dvTables e (hdvSub e he)⟩
       · rw [hD.2.1, inv.sync.rs]
         apply List.filter_congr
         intro k _
         rw [contains_dels_rs]
-      · rw [hD.2.2, inv.sync.dv]
-        show List.filter _ (s.dvs.map DvE.key) = s.dvs.map DvE.key
-        rw [List.filter_eq_self]
-        intro k _
-        rw [contains_dels_dv]; rfl
+      · rw [hD.2.2]
+        exact hdvSync _ inv.sync.dv
     · have hemp' : rows.isEmpty = false := by simpa using hemp
       simp only [hemp', Bool.false_eq_true, if_false] at hwf ⊢
-      have hnm : ∀ r ∈ (Rec.addRowSet tid s.nextRs :: selected.map fun rs => Rec.delRowSet tid rs), r.isMark = false := by
+      have hnm : ∀ r ∈ (Rec.addRowSet tid s.nextRs :: compactDels s tid selected), r.isMark = false := by
         intro r hr
         cases hr with
         | head => rfl
@@ -467,7 +492,7 @@ theorem compactTable_inv (s : Store) (inv : Inv s) (tid : Nat) (d : TableDef) (s
             nextRs := max (bootFold (replay s.manifest)).nextRs (s.nextRs + 1),
             rsOpen := setInsert (tid, s.nextRs) (bootFold (replay s.manifest)).rsOpen } := by
         unfold Boot.step; simp [inv.sync.ok]
-      have hD := foldl_dels (selected.map fun rs => Rec.delRowSet tid rs)
+      have hD := foldl_dels (compactDels s tid selected)
         ((bootFold (replay s.manifest)).step (Rec.addRowSet tid s.nextRs)) hdelsDel (by rw [hs]; exact inv.sync.ok)
       rw [hs] at hD
       simp only [Boot.tabPart, Prod.mk.injEq] at hD
@@ -478,27 +503,27 @@ theorem compactTable_inv (s : Store) (inv : Inv s) (tid : Nat) (d : TableDef) (s
       rw [hs] at c2
       refine ⟨hwf, Sync.mk' c2 c1 (by rw [hD.1.2.2.2]; exact inv.sync.ok) (by rw [hD.1.1]; exact inv.sync.cat)
           (by rw [hD.1.2.1]; exact inv.sync.tables) ?_ ?_,
-        ?_, inv.dvFiles, inv.dvFilesLive, inv.dvIds, inv.catIds, inv.idsNodup,
-        inv.namesNodup, inv.catTab, inv.tabIds, ?_, inv.dvTables, inv.dvFileTid⟩
+        ?_, fun e he => inv.dvFiles e (hdvSub e he), fun e he => List.mem_append_left _ (hdvLive e he),
+        fun e he => inv.dvIds e (hdvSub e he), inv.catIds, inv.idsNodup,
+        inv.namesNodup, inv.catTab, inv.tabIds, ?_, fun e he => inv.dvTables e (hdvSub e he)⟩
       · rw [hD.2.1, inv.sync.rs, setInsert, hfresh]
         simp only [Bool.false_eq_true, if_false, List.filter_append]
         congr 1
         · apply List.filter_congr
           intro k _
           rw [contains_dels_rs]
-        · have : (selected.map fun rs => Rec.delRowSet tid rs).contains (Rec.delRowSet tid s.nextRs) = false := by
-            rw [contains_dels_rs (k := (tid, s.nextRs))]
-            cases hc : selected.contains s.nextRs with
-            | false => simp
-            | true => have := inv.wf.rs _ (hselmem _ (by simpa using hc)); simp at this
-          have hns : ¬ s.nextRs ∈ selected := fun hc => by
+        · have hns : ¬ s.nextRs ∈ selected := fun hc => by
             have := inv.wf.rs _ (hselmem _ hc); simp at this
-          simp [List.filter_cons, hns]
-      · rw [hD.2.2, inv.sync.dv]
-        show List.filter _ (s.dvs.map DvE.key) = s.dvs.map DvE.key
-        rw [List.filter_eq_self]
-        intro k _
-        rw [contains_dels_dv]; rfl
+          have : (compactDels s tid selected).contains (Rec.delRowSet tid s.nextRs) = false := by
+            rw [contains_dels_rs (k := (tid, s.nextRs))]
+            simp [hns]
+          have hnm2 : ¬ Rec.delRowSet tid s.nextRs ∈ compactDels s tid selected := by
+            intro hm
+            have h2 : (compactDels s tid selected).contains (Rec.delRowSet tid s.nextRs) = true := by simpa using hm
+            rw [this] at h2; exact Bool.false_ne_true h2
+          simp [List.filter_cons, hnm2]
+      · rw [hD.2.2]
+        exact hdvSync _ inv.sync.dv
       · intro k hk
         show (lookup k (s.dirs ++ [((tid, s.nextRs), rows)])).isSome
         rw [lookup_append]
@@ -575,19 +600,9 @@ theorem createTable_inv (s : Store) (inv : Inv s) (d : TableDef) (id : Nat) (c' 
   refine ⟨⟨by rw [f8, f6]; exact inv.wf.dirs, by rw [f3, f6]; exact inv.wf.rs, by rw [f4, f6]; exact inv.wf.dv,
       by rw [f5, f3, f6]; exact inv.wf.pend⟩,
     Sync.mk' c2 c1 inv.sync.ok f1.symm f2.symm (by rw [f3]; exact inv.sync.rs) (by rw [f4]; exact inv.sync.dv),
-    by rw [f3, f8]; exact inv.dirs, by rw [f4, f9]; exact inv.dvFiles, ?_, by rw [f4, f7]; exact inv.dvIds,
-    ?_, ?_, ?_, ?_, ?_, ?_, ?_, ?_⟩
-  · intro x hx hl
-    rw [f9] at hx; rw [f2] at hl; rw [f4]
-    apply inv.dvFilesLive x hx
-    rw [lookup_append] at hl
-    cases hl0 : lookup x.1.1 s.tables with
-    | some v => rfl
-    | none =>
-      rw [hl0] at hl
-      have := inv.dvFileTid x hx
-      simp [lookup] at hl
-      omega
+    by rw [f3, f8]; exact inv.dirs, by rw [f4, f9]; exact inv.dvFiles, by rw [f4, f3]; exact inv.dvLive,
+    by rw [f4, f7]; exact inv.dvIds,
+    ?_, ?_, ?_, ?_, ?_, ?_, ?_⟩
   · rw [f1, a3]
     intro e he
     simp only at he ⊢
@@ -629,10 +644,6 @@ theorem createTable_inv (s : Store) (inv : Inv s) (d : TableDef) (id : Nat) (c' 
     · simp at hx; subst hx; simp
   · rw [f3, f2]; exact fun k hk => hlk _ (inv.rsTables k hk)
   · rw [f4, f2]; exact fun e he => hlk _ (inv.dvTables e he)
-  · rw [f1, a3, f9]
-    intro x hx
-    have := inv.dvFileTid x hx
-    simp only; omega
 
 /-! ### DROP TABLE keeps the invariant -/
 
@@ -681,8 +692,10 @@ theorem lookup_filter_ne {β} (tid : Nat) : ∀ l : List (Nat × β), lookup tid
     · have : (a == tid) = false := by simpa using h
       simp [h, lookup, this, lookup_filter_ne tid l]
 
-theorem drop_inv (s : Store) (inv : Inv s) (n : String) (e0 : CatEntry) (h : s.cat.find? n = some e0)
-    (guard : ∀ e ∈ s.dvs, e.tid = e0.id → (e0.id, e.rs) ∈ s.rowsets) : Inv (s.drop n).1 := by
+theorem drop_inv (s : Store) (inv : Inv s) (n : String) (e0 : CatEntry) (h : s.cat.find? n = some e0) :
+    Inv (s.drop n).1 := by
+  have guard : ∀ e ∈ s.dvs, e.tid = e0.id → (e0.id, e.rs) ∈ s.rowsets :=
+    fun e he ht => ht ▸ inv.dvLive e he
   have he0 : e0 ∈ s.cat.entries := List.mem_of_find?_eq_some h
   have hk : e0.kind = .table := (inv.catIds e0 he0).2
   obtain ⟨f1, f2, f3, f4, f5, f6, f7, f8, f9, f10, _⟩ := drop_fields s n e0 h hk
@@ -726,7 +739,7 @@ theorem drop_inv (s : Store) (inv : Inv s) (n : String) (e0 : CatEntry) (h : s.c
     simp at h2
   refine ⟨⟨by rw [f8, f6]; exact inv.wf.dirs, ?_, ?_, ?_⟩,
     Sync.mk' c2 c1 (by rw [hD.1.2.2.2]; exact inv.sync.ok) (by rw [hD.1.1, f1]) (by rw [hD.1.2.1, f2]) ?_ ?_,
-    ?_, ?_, ?_, ?_, ?_, ?_, ?_, ?_, ?_, ?_, ?_, ?_⟩
+    ?_, ?_, ?_, ?_, ?_, ?_, ?_, ?_, ?_, ?_, ?_⟩
   · rw [f3, f6]; exact fun k hk => inv.wf.rs k (hkeep k hk).1
   · rw [f4, f6]; exact fun e he => inv.wf.dv e (hdvkeep e he).1
   · rw [f5, f3, f6]
@@ -758,16 +771,10 @@ theorem drop_inv (s : Store) (inv : Inv s) (n : String) (e0 : CatEntry) (h : s.c
     simp
   · rw [f3, f8]; exact fun k hk => inv.dirs k (hkeep k hk).1
   · rw [f4, f9]; exact fun e he => inv.dvFiles e (hdvkeep e he).1
-  · intro x hx hl
-    rw [f9] at hx; rw [f2] at hl; rw [f4]
-    have hne : x.1.1 ≠ tid := by
-      intro heq; rw [heq, lookup_filter_ne] at hl; simp at hl
-    have hl' : (lookup x.1.1 s.tables).isSome := by
-      rwa [lookup_filter (fun a => a != tid) x.1.1 (by simpa using hne)] at hl
-    obtain ⟨e, he, hke⟩ := List.mem_map.mp (inv.dvFilesLive x hx hl')
-    refine List.mem_map.mpr ⟨e, List.mem_filter.mpr ⟨he, ?_⟩, hke⟩
-    have : e.tid ≠ tid := by rw [← hke] at hne; simpa [DvE.key] using hne
-    simp [this]
+  · rw [f4, f3]
+    intro e he
+    have hk := hdvkeep e he
+    exact List.mem_filter.mpr ⟨inv.dvLive e hk.1, by simpa using hk.2⟩
   · rw [f4, f7]; exact fun e he => inv.dvIds e (hdvkeep e he).1
   · rw [f1]; exact fun e he => inv.catIds e (List.mem_filter.mp he).1
   · rw [f1]; exact inv.idsNodup.sublist ((List.filter_sublist).map _)
@@ -787,16 +794,10 @@ theorem drop_inv (s : Store) (inv : Inv s) (n : String) (e0 : CatEntry) (h : s.c
     intro e he
     rw [lookup_filter (fun a => a != tid) e.tid (by simpa using (hdvkeep e he).2)]
     exact inv.dvTables e (hdvkeep e he).1
-  · rw [f1, f9]; exact inv.dvFileTid
 
 /-! ### reopen keeps the invariant -/
 
-/-- the guard under which the id generators re-derived by a reopen stay above every row-set id a
-delete vector names: a stale DV (its row-set was compacted away) must be below some live row-set -/
-def ReopenGuard (s : Store) : Prop :=
-  ∀ e ∈ s.dvs, (e.tid, e.rs) ∉ s.rowsets → ∃ k ∈ s.rowsets, e.rs ≤ k.2
-
-theorem reopen_inv (s : Store) (inv : Inv s) (guard : ReopenGuard s) :
+theorem reopen_inv (s : Store) (inv : Inv s) :
     ∃ s', s.reopen = .ok s' ∧ Inv s' ∧ (∀ n, s'.abs n = s.abs n) ∧ s'.cat = s.cat ∧ s'.tables = s.tables ∧
       ∀ t, s'.scan t = s.scan t := by
   have h := inv.reopenHyp
@@ -838,18 +839,14 @@ theorem reopen_inv (s : Store) (inv : Inv s) (guard : ReopenGuard s) :
       Sync.mk' (b := bootFold (rewriteOps (bootFold (replay s.manifest)))) (by show bootFold (replay _) = _; rw [hman]) hcl'
         hrw.2.2.2.1 hrw.1 (by rw [hrw.2.1]; exact inv.sync.tables) (by rw [hrw.2.2.2.2.1]; exact inv.sync.rs)
         (by rw [hrw.2.2.2.2.2]; exact inv.sync.dv),
-      ?_, inv.dvFiles, inv.dvFilesLive, ?_, ?_, ?_, ?_, ?_, ?_, inv.rsTables, inv.dvTables, ?_⟩
+      ?_, inv.dvFiles, inv.dvLive, ?_, ?_, ?_, ?_, ?_, ?_, inv.rsTables, inv.dvTables⟩
     · intro x hx
       have := (List.mem_filter.mp hx).2
       exact hfresh.1 x.1 (by rw [h.rs]; simpa using this)
     · intro k hk; exact hfresh.1 k (by rw [h.rs]; exact hk)
     · intro e he
       show e.rs < (bootFold (replay s.manifest)).nextRs
-      by_cases hl : (e.tid, e.rs) ∈ s.rowsets
-      · exact hfresh.1 _ (by rw [h.rs]; exact hl)
-      · obtain ⟨k, hk, hle⟩ := guard e he hl
-        have := hfresh.1 k (by rw [h.rs]; exact hk)
-        omega
+      exact hfresh.1 _ (by rw [h.rs]; exact inv.dvLive e he)
     · intro k hk
       show (lookup k (s.dirs.filter fun x => s.rowsets.contains x.1)).isSome
       rw [hdirs k hk]; exact inv.dirs k hk
@@ -865,8 +862,6 @@ theorem reopen_inv (s : Store) (inv : Inv s) (guard : ReopenGuard s) :
       rw [inv.sync.cat]; exact inv.catTab
     · show ∀ x ∈ s.tables, x.1 < (bootFold (replay s.manifest)).cat.nextId
       rw [inv.sync.cat]; exact inv.tabIds
-    · show ∀ x ∈ s.dvFiles, x.1.1 < (bootFold (replay s.manifest)).cat.nextId
-      rw [inv.sync.cat]; exact inv.dvFileTid
   · intro n
     apply abs_congr
     · exact h.cat
@@ -882,10 +877,12 @@ theorem reopen_inv (s : Store) (inv : Inv s) (guard : ReopenGuard s) :
 
 /-! ### histories -/
 
-/-- DROP TABLE: no delete vector of that table names a row-set that compaction removed -/
-def dropGuard (s : Store) (n : String) : Prop :=
-  match s.cat.find? n with
-  | some e0 => ∀ e ∈ s.dvs, e.tid = e0.id → (e0.id, e.rs) ∈ s.rowsets
+/-- DELETE: the delete-vector files it is about to create (`create_new`) do not exist yet.  DV files
+are never unlinked, so after a compaction removed all row-sets of a table and two reopens re-derived
+both id counters from what is live, a (table, row-set, DV) id triple can be handed out a second time -/
+def deleteGuard (s : Store) (n : String) (p : Row → Bool) : Prop :=
+  match s.tableId? n with
+  | some tid => ∀ e ∈ mkDvs tid (delHits s tid p) s.nextDv, lookup e.key s.dvFiles = none
   | none => True
 
 /-- INSERT: no NULL goes into a NOT NULL column (C05) -/
@@ -901,19 +898,16 @@ what the code handles correctly (each clause is forced by a defect that the chec
 def Guard (s : Store) : Op → Prop
   | .createView _ => False                       -- views / indexes take table ids that are not logged
   | .createIndex _ _ => False
-  | .drop n => dropGuard s n
-  | .reopen => ReopenGuard s                     -- stale DVs are below some live row-set id
+  | .delete n p => deleteGuard s n p
   | .insert n parts => insertGuard s n parts
   | _ => True
 
-instance (s : Store) : Decidable (ReopenGuard s) := by unfold ReopenGuard; infer_instance
-
-instance (s : Store) (n : String) : Decidable (dropGuard s n) := by
-  unfold dropGuard
-  generalize s.cat.find? n = o
+instance (s : Store) (n : String) (p : Row → Bool) : Decidable (deleteGuard s n p) := by
+  unfold deleteGuard
+  generalize s.tableId? n = o
   cases o with
   | none => exact isTrue trivial
-  | some e0 => simp only; infer_instance
+  | some tid => simp only; infer_instance
 
 instance (s : Store) (n : String) (parts : List (List Row)) : Decidable (insertGuard s n parts) := by
   unfold insertGuard
@@ -931,11 +925,11 @@ instance (s : Store) : (op : Op) → Decidable (Guard s op)
   | .create _ => isTrue trivial
   | .createView _ => isFalse id
   | .createIndex _ _ => isFalse id
-  | .delete _ _ => isTrue trivial
+  | .delete n p => by show Decidable (deleteGuard s n p); infer_instance
   | .compact _ => isTrue trivial
   | .vacuum => isTrue trivial
-  | .reopen => by show Decidable (ReopenGuard s); infer_instance
-  | .drop n => by show Decidable (dropGuard s n); infer_instance
+  | .reopen => isTrue trivial
+  | .drop _ => isTrue trivial
   | .insert n parts => by show Decidable (insertGuard s n parts); infer_instance
 
 def GoodHist : Store → List Op → Prop
@@ -965,9 +959,7 @@ theorem step_inv (s : Store) (inv : Inv s) (op : Op) (g : Guard s op) :
   | drop n =>
     cases hf : s.cat.find? n with
     | none => exact ⟨s, by simp [stepUp, Store.drop, hf], inv⟩
-    | some e0 =>
-      simp only [Guard, dropGuard, hf] at g
-      exact ⟨_, rfl, drop_inv s inv n e0 hf g⟩
+    | some e0 => exact ⟨_, rfl, drop_inv s inv n e0 hf⟩
   | insert n parts =>
     cases h1 : s.tableId? n with
     | none => exact ⟨s, by simp [stepUp, Store.insert, h1], inv⟩
@@ -978,11 +970,13 @@ theorem step_inv (s : Store) (inv : Inv s) (op : Op) (g : Guard s op) :
   | delete n p =>
     cases h1 : s.tableId? n with
     | none => exact ⟨s, by simp [stepUp, Store.delete, h1], inv⟩
-    | some tid => exact ⟨_, rfl, delete_inv s inv n p tid h1⟩
+    | some tid =>
+      simp only [Guard, deleteGuard, h1] at g
+      exact ⟨_, rfl, delete_inv s inv n p tid h1 g⟩
   | compact plan => exact ⟨_, rfl, compact_inv plan s inv⟩
   | vacuum => exact ⟨_, rfl, vacuum_inv s inv⟩
   | reopen =>
-    obtain ⟨s', h1, h2, _⟩ := reopen_inv s inv g
+    obtain ⟨s', h1, h2, _⟩ := reopen_inv s inv
     exact ⟨s', by simp [stepUp, h1], h2⟩
 
 /-- **every guarded history of acknowledged statements (DDL, INSERT, DELETE, compaction, vacuum,
